@@ -223,7 +223,7 @@ def go_build(pkg, out, race=False):
     """Build ./<pkg> of /repo's working tree with the verif overlay into .build/<out>."""
     ov = overlay_file()
     dst = os.path.join(BUILD, out)
-    cmd = ["go", "build", "-tags", "verif", "-overlay", ov, "-o", dst]
+    cmd = ["go", "build", "-mod=readonly", "-tags", "verif", "-overlay", ov, "-o", dst]
     if race:
         cmd.append("-race")
     cmd.append("./" + pkg)
